@@ -27,13 +27,13 @@ type Event struct {
 }
 
 type Arm struct {
-	Inst   string
-	Point  string
-	Nth    int // n-th occurrence counted from the moment of arming (1 = next)
-	Action func(ev Event)
-	seen   int
-	Done   bool // the action has returned
-	Fired  bool
+	Inst    string
+	Point   string
+	Nth     int // n-th occurrence counted from the moment of arming (1 = next)
+	Action  func(ev Event)
+	seen    int
+	Done    bool // the action has returned
+	Fired   bool
 	FiredAt Event
 }
 
